@@ -172,6 +172,16 @@ EidCases ==
   {Bndl("eids", <<i>>, [P0 EXCEPT !.dst = EidTuples[i][1], !.src = EidTuples[i][2], !.rpt = EidTuples[i][3], !.flags = EidTuples[i][4]],
         <<BPrev(2, 0, 1, EidTuples[i][5]), Pay0>>) : i \in 1..Len(EidTuples)}
 
+(* map-valued blocks with 0..3 entries and each CRC type on the block itself: the serialiser writes the entries in an order
+   of its own choosing, every such order must be accepted again (the harness repeats these round trips) *)
+PeerIds == <<EDtn(TPrev), EIpn(<<7>>, <<1>>), EDtn(TSrc)>>
+DtlsrPeers(n) == [i \in 1..n |-> <<PeerIds[i], <<i * 3>>>>]
+ProphetPeers(n) == [i \in 1..n |-> <<PeerIds[i], <<63, 224 + i, 0, 0, 0, 0, 0, 0>>>>]
+MapCases ==
+     {Bndl("maps-dtlsr", <<n, c>>, P0, <<BDtlsr(2, 0, c, EDtn(TSrc), <<1, 0, 0, 0, 0>>, DtlsrPeers(n)), Pay0>>) : n \in 0..3, c \in 0..2}
+  \cup {Bndl("maps-prophet", <<n, c>>, P0, <<BProphet(2, 0, c, ProphetPeers(n)), Pay0>>) : n \in 0..3, c \in 0..2}
+  \cup {Bndl("maps-both", <<n, c>>, P0, <<BDtlsr(2, 0, c, EDtn(TSrc), <<9>>, DtlsrPeers(n)), BProphet(3, 0, 3 - c, ProphetPeers(n)), BPayload(1, 0, c, Ramp(4))>>) : n \in 2..3, c \in 1..2}
+
 (* ---- rule-violating mutants for C02: each mutation is a function on an abstract bundle ---- *)
 MBase == Bndl("mut", <<>>, [P0 EXCEPT !.flags = <<64>>], <<BPrev(2, 0, 1, EDtn(TPrev)), BHop(3, 0, 2, 9, 3), BPayload(1, 0, 1, Ramp(9))>>)
 Mutations == <<"ver", "nopayload", "twopayload", "paynum", "paynotlast", "dupnum", "duptype", "badipn-src", "baddtn-dst", "badprev",
@@ -220,6 +230,7 @@ Cases ==
     [] Family = "widths" -> WidthCases
     [] Family = "payload" -> PayloadCases
     [] Family = "eids" -> EidCases
+    [] Family = "maps" -> MapCases
     [] Family = "mut1" -> MutSingles \cup Benign
     [] Family = "mut2" -> MutPairs
     [] Family = "mut3" -> MutTriples
